@@ -116,6 +116,63 @@ func isMutexCall(cm *ssa.CallCommon, names ...string) bool {
 
 func runC40(c *Ctx) {
 	c.R.Rule("L-unlock", "in the state packages (dpos/state, cr/state) no map- or slice-typed field of mutex-guarded state (State, StateKeyFrame, Producer, Arbiters, Committee, the CR key frames, Candidate, CRMember, ProposalState) is accessed, directly or through an unexported helper that takes no lock, on a path after an explicit (non-deferred) Unlock/RUnlock of the owner's mutex and before it is locked again")
+	c.R.Rule("L-commit", "in dpos/state, cr/state and mempool a function that releases a mutex with an explicit Unlock()/RUnlock() call does not afterwards (without taking the lock again) run the deferred state mutations of a History (Commit, RollbackTo, SeekTo, RollbackSeekTo): those execute the queued closures that write the guarded maps")
+	{
+		nU := 0
+		for _, rel := range []string{"dpos/state", "cr/state", "mempool"} {
+			for _, f := range c.pkgFuncs(rel) {
+				if len(f.Blocks) == 0 {
+					continue
+				}
+				isSync := func(cm *ssa.CallCommon, names ...string) bool {
+					o := ssau.CalleeObj(cm)
+					if o == nil || o.Pkg() == nil || o.Pkg().Path() != "sync" {
+						return false
+					}
+					for _, n := range names {
+						if o.Name() == n {
+							return true
+						}
+					}
+					return false
+				}
+				relock := ssau.NewCut()
+				for _, ci := range ssau.CallsIn(f, func(cm *ssa.CallCommon) bool { return isSync(cm, "Lock", "RLock") }) {
+					relock.AddInstr(ci)
+				}
+				for _, b := range f.Blocks {
+					for _, in := range b.Instrs {
+						u, ok := in.(*ssa.Call)
+						if !ok || !isSync(&u.Call, "Unlock", "RUnlock") {
+							continue
+						}
+						nU++
+						ra := ssau.ReachAfter(f, u, relock)
+						bad := ""
+						for _, hc := range ssau.CallsIn(f, func(cm *ssa.CallCommon) bool {
+							o := ssau.CalleeObj(cm)
+							if o == nil || ssau.RecvName(o) != "History" {
+								return false
+							}
+							switch o.Name() {
+							case "Commit", "RollbackTo", "SeekTo", "RollbackSeekTo":
+								return true
+							}
+							return false
+						}) {
+							if ra.Instr(hc) {
+								bad = c.posOf(hc)
+							}
+						}
+						if bad != "" {
+							c.R.Check("L-commit", short(fname(f))+"|history mutation after unlock", false, c.posOf(u), "the History call at "+bad+" runs the queued state changes after the mutex was released at "+c.posOf(u))
+						}
+					}
+				}
+			}
+		}
+		c.R.Check("L-commit", "explicit unlocks examined", nU > 0, "", fmt.Sprintf("%d explicit Unlock/RUnlock calls; none is followed by a History mutation without re-locking (violations are listed separately)", nU))
+	}
 	c.R.Rule("L-entry", "every exported method of State, Arbiters and Committee that takes the owner's mutex touches guarded containers only after taking it (no access between entry and the first Lock/RLock)")
 	c.R.Rule("G-snapshot", "the checkpoint manager hands the asynchronous file writer (the only caller of ICheckPoint.Serialize off the chain goroutine) nothing but the result of Snapshot(): every argument of fileChannels.Save derives from a Snapshot() call, and the other file operations never serialize the object they are given")
 	c.R.Rule("L-external", "map-typed fields of the guarded state structs are not indexed, ranged over or written by code outside the owning package in the node binary (the mutex is unexported, so such code cannot hold it)")
